@@ -209,11 +209,23 @@ theorem append_us_inj {a b x y : Str} (ha : '_' ∉ a) (hb : '_' ∉ b) (h : a +
 theorem upper_name_num (nm : Str) (n : Nat) : upper (nm ++ '_' :: natStr n) = upper nm ++ '_' :: natStr n := by
   rw [upper_append, upper_cons, upper_natStr]; rfl
 
-def NoUS (f : File) : Prop := ∀ a ∈ f.atoms, '_' ∉ a.name
+/-- atom names carry no `_` and the cached index is empty or agrees with the atom list -/
+def NoUS (f : File) : Prop := (∀ a ∈ f.atoms, '_' ∉ a.name) ∧ index f = f.atoms.map atomKey
+
+theorem index_of_coherent {f : File} (h : coherent f = true) : index f = f.atoms.map atomKey := by
+  simp only [coherent, Bool.or_eq_true, beq_iff_eq] at h
+  unfold index
+  rcases h with h | h
+  · simp [h]
+  · split
+    · rfl
+    · exact h
 
 /-- looking `NAME_n` up in the upper-case key list is the same as asking for an atom NAME in residue n -/
 theorem key_lookup {f : File} (hf : NoUS f) {nm : Str} (hnm : '_' ∉ nm) (n : Nat) :
-    (f.atoms.map atomKey).contains (upper (nm ++ '_' :: natStr n)) = atomExists f (upper nm) n := by
+    (index f).contains (upper (nm ++ '_' :: natStr n)) = atomExists f (upper nm) n := by
+  rw [hf.2]
+  have hf := hf.1
   rw [Bool.eq_iff_iff]
   simp only [List.contains_iff_mem, List.mem_map, atomExists, List.any_eq_true, Bool.and_eq_true, beq_iff_eq]
   constructor
@@ -299,8 +311,9 @@ theorem not_mem_of_contains_false {c : Char} {s : Str} (h : s.contains c = false
   rw [List.contains_iff_mem.2 hm] at h
   exact absurd h (by decide)
 
-theorem wfFile_iff {f : File} : wfFile f = true ↔ NoUS f ∧ ∀ x ∈ f.resis, 0 < x.num ∧ x.cls ≠ [] := by
-  simp [wfFile, NoUS]
+theorem wfFile_iff {f : File} :
+    wfFile f = true ↔ (∀ a ∈ f.atoms, '_' ∉ a.name) ∧ ∀ x ∈ f.resis, 0 < x.num ∧ x.cls ≠ [] := by
+  simp [wfFile]
 
 theorem residuesOfClass_nil {f : File} (h : ∀ x ∈ f.resis, 0 < x.num ∧ x.cls ≠ []) : residuesOfClass f [] = [] := by
   simp only [residuesOfClass, List.map_eq_nil_iff, List.filter_eq_nil_iff, beq_iff_eq]
@@ -546,9 +559,9 @@ theorem checkToken_spec {f : File} {r : Restr} (hf : NoUS f) {cw : Bool} {nums :
     class without residues, and the names it reports denote exactly the missing (NAME, residue) pairs -/
 theorem assign_spec (f : File) (r : Restr) (h : WellFormed f r) :
     ∃ o, assign f r = .ok o ∧ o.classMsg = classUnknown f r ∧ ∀ p, p ∈ reported o ↔ p ∈ missing f r := by
-  obtain ⟨hf, hk, ht⟩ := h
+  obtain ⟨⟨hf, hco⟩, hk, ht⟩ := h
   obtain ⟨cls, nums, hc, hn, hcw, h1, h2⟩ := kw_spec hf hk
-  have hnus := (wfFile_iff.1 hf).1
+  have hnus : NoUS f := ⟨(wfFile_iff.1 hf).1, index_of_coherent hco⟩
   refine ⟨{ bad := r.atoms.flatMap (checkToken f (classUnknown f r) nums), classMsg := classUnknown f r }, ?_, rfl, ?_⟩
   · simp only [assign, hc, hn, bind, Except.bind, pure, Except.pure, hcw]
   · intro p
@@ -607,6 +620,47 @@ theorem message_iff (f : File) (r : Restr) (h : WellFormed f r) :
         rw [h3, hm] at this
         exact absurd this (by simp)
   simp only [Outcome.anyMessage, Bool.or_eq_true, Bool.not_eq_true', List.isEmpty_eq_false_iff, ne_eq, h2, hb]
+
+/-! ### histories: the diagnostics after edits of the atom list -/
+
+/-- every edit that goes through the API leaves the cached index empty or in agreement with the atom list -/
+theorem coherent_step {f : File} (h : coherent f = true) (op : Op) (hop : op.keepsIndex = true) :
+    coherent (step f op) = true := by
+  cases op with
+  | delItem i => simp [step, coherent]
+  | delete i => simp [step, coherent]
+  | rename i nm =>
+    simp only [step]
+    split
+    · exact h
+    · simp [coherent]
+  | add nm => simp [step, coherent]
+  | setResi i n => simp [Op.keepsIndex] at hop
+  | check =>
+    have := index_of_coherent h
+    simp [step, coherent, this]
+
+theorem coherent_run {f : File} (h : coherent f = true) (ops : List Op) (hops : ∀ op ∈ ops, op.keepsIndex = true) :
+    coherent (run f ops) = true := by
+  induction ops generalizing f with
+  | nil => exact h
+  | cons op ops ih =>
+    simp only [run, List.foldl_cons]
+    exact ih (coherent_step h op (hops op (by simp))) (fun o ho => hops o (by simp [ho]))
+
+/-- **warnings_after_history**: after ANY sequence of deletions (both forms), renamings, additions and
+    intermediate evaluations, the diagnostics name exactly the atoms that are missing from the EDITED atom list.
+    The data hypotheses are those of `warnings_eq_missing`, stated for the edited file; coherence of the cached
+    index is not assumed for the result, it is derived from the history. `setResi` (plain assignment to
+    `atom.resi`) is excluded: `history_fails_on`. -/
+theorem warnings_after_history (f : File) (ops : List Op) (r : Restr)
+    (h0 : coherent f = true) (hops : ∀ op ∈ ops, op.keepsIndex = true)
+    (hf : wfFile (run f ops) = true) (hk : wfKw r.kw = true) (ht : ∀ t ∈ r.atoms, wfTok t = true) :
+    ∃ o, assign (run f ops) r = .ok o ∧ ∀ p, p ∈ reported o ↔ p ∈ missing (run f ops) r :=
+  warnings_eq_missing _ _ ⟨⟨hf, coherent_run h0 ops hops⟩, hk, ht⟩
+
+/-- the full-strength statement over all ops, including the attribute assignment (open finding) -/
+def HistoryStatement : Prop := ∀ (f : File) (ops : List Op), coherent f = true → coherent (run f ops) = true
 
 /-! ### wildcards, operators and symmetry equivalents are never reported (no hypothesis at all) -/
 
@@ -775,6 +829,24 @@ theorem noncanonical_number_reported :
 
 /-- outside `wfKw`: two underscores on the keyword raise ValueError in `_parse_line` (the parse ends there) -/
 theorem two_underscores_raise : kwClass ['S', 'A', 'D', 'I', '_', '1', '_', '2'] = .error .valueError := by decide +kernel
+
+/-- `SADI_1 C1 C2`, evaluated, then `atoms[2].resi = RESI 0` (C1 of residue 1 moved to residue 0), evaluated again:
+    the stale index still finds `C1_1` -/
+def restrR1 : Restr := { kw := ['S', 'A', 'D', 'I', '_', '1'], atoms := [C1, C2] }
+theorem history_fails_on : ¬ HistoryStatement := by
+  intro h
+  have := h fileA [.check, .setResi 2 0] (by decide +kernel)
+  exact absurd this (by decide +kernel)
+
+theorem stale_index_misses_moved_atom :
+    missing (run fileA [.check, .setResi 2 0]) restrR1 = [(C1, 1)] ∧
+    (assign (run fileA [.check, .setResi 2 0]) restrR1).map reported = .ok [] := by decide +kernel
+
+/-- a history through the API: evaluate, `del atoms[3]` (C2 of residue 1), rename atoms[0] C1 -> C9, add C1, evaluate -/
+def opsA : List Op := [.check, .delItem 3, .rename 0 ['C', '9'], .add C1, .check]
+example : (∀ op ∈ opsA, op.keepsIndex = true) ∧ wfFile (run fileA opsA) = true := by decide +kernel
+example : missing (run fileA opsA) restrR1 = [(['C', '2'], 1)] ∧
+    (assign (run fileA opsA) restrR1).map reported = .ok [(['C', '2'], 1)] := by decide +kernel
 
 end Witnesses
 
